@@ -316,6 +316,90 @@ def match_finding(v, findings):
     return None
 
 
+
+# --------------------------------------------------------------------------------------
+# which lines of the implementation did the correspondence execute?  (evidence only: it bounds what E2 can see)
+# --------------------------------------------------------------------------------------
+class ImplCoverage:
+    """Line coverage of <repo>/ofxtools/*.py during E2, by sys.monitoring (Python >= 3.12; otherwise absent).
+    Each location reports once and is then disabled, so the overhead is negligible."""
+    FILES = ["Types.py", "Parser.py", "header.py", "utils.py", "Client.py", "models/base.py", "scripts/ofxget.py"]
+
+    def __init__(self, repo):
+        self.prefix = os.path.join(os.path.realpath(repo), "ofxtools") + os.sep
+        self.hits = set()
+        self.on = False
+        self.mon = getattr(sys, "monitoring", None)
+
+    def start(self):
+        if self.mon is None:
+            return
+        try:
+            self.mon.use_tool_id(self.mon.COVERAGE_ID, "verif")
+            self.mon.register_callback(self.mon.COVERAGE_ID, self.mon.events.LINE, self._line)
+            self.mon.set_events(self.mon.COVERAGE_ID, self.mon.events.LINE)
+            self.on = True
+        except Exception:   # noqa  (another tool holds the id)
+            self.on = False
+
+    def _line(self, code, line):
+        fn = code.co_filename
+        if fn.startswith(self.prefix):
+            self.hits.add((fn, line))
+        return self.mon.DISABLE
+
+    def stop(self):
+        if self.on:
+            self.mon.set_events(self.mon.COVERAGE_ID, 0)
+            self.mon.free_tool_id(self.mon.COVERAGE_ID)
+            self.on = False
+
+    @staticmethod
+    def _executable(path):
+        out = set()
+        try:
+            with open(path, encoding="utf-8") as f:
+                top = compile(f.read(), path, "exec")
+        except Exception:   # noqa
+            return out
+        stack = [top]
+        while stack:
+            c = stack.pop()
+            if c is not top:   # module-level lines run at import time, before monitoring starts
+                first = c.co_firstlineno
+                for _, _, ln in c.co_lines():
+                    if ln is not None and ln != first:
+                        out.add(ln)
+            stack.extend(k for k in c.co_consts if hasattr(k, "co_lines"))
+        return out
+
+    @staticmethod
+    def _ranges(xs):
+        out, i = [], 0
+        while i < len(xs):
+            j = i
+            while j + 1 < len(xs) and xs[j + 1] == xs[j] + 1:
+                j += 1
+            out.append(str(xs[i]) if i == j else f"{xs[i]}-{xs[j]}")
+            i = j + 1
+        return " ".join(out)
+
+    def summary(self):
+        if self.mon is None:
+            return {"note": "sys.monitoring not available"}
+        res = {}
+        by = collections.defaultdict(set)
+        for fn, ln in self.hits:
+            by[fn].add(ln)
+        for rel in self.FILES:
+            path = self.prefix + rel
+            ex = self._executable(path)
+            hit = by.get(os.path.realpath(path), set()) | by.get(path, set())
+            res[rel] = {"function_body_lines": len(ex), "executed": len(ex & hit), "executed_lines": self._ranges(sorted(ex & hit))}
+        others = sorted({os.path.relpath(fn, self.prefix) for fn in by} - set(self.FILES))
+        res["other_files_touched"] = len(others)
+        return res
+
 # --------------------------------------------------------------------------------------
 # main entry
 # --------------------------------------------------------------------------------------
@@ -450,6 +534,8 @@ def main(argv=None):
         log(f"note: witness module {m} does not build: {why}")
     sys.path.insert(0, REPO)
     infra = None
+    impl_cov = ImplCoverage(REPO)
+    impl_cov.start()
     try:
         mod = importlib.import_module(f"corr.{prop}")
         if a.replay:
@@ -466,6 +552,7 @@ def main(argv=None):
     except Exception:
         infra = traceback.format_exc()
         log(infra)
+    impl_cov.stop()
     # ---- verdict --------------------------------------------------------------------
     findings = load_findings(prop)
     printed = set()
@@ -534,6 +621,7 @@ def main(argv=None):
             "known_findings_replayed": dict(known_hit),
             "exhaustive_spaces": ctx.exhaustive,
             "exhaustive": bool(ctx.exhaustive) and tier == "thorough",
+            "implementation_lines": impl_cov.summary(),
             "notes": ctx.notes + ([{"harness_crash": infra[-1500:]}] if infra else []),
         },
         "assumptions": entry.get("assumptions", []),
